@@ -100,6 +100,35 @@ def rand_spec(rng, n_total=None, n_demes=None, n_epochs=None, kinds=('kingman', 
     return spec
 
 
+def recurring_spec(rng, n_total=None, n_demes=None, kinds=('kingman', 'beta', 'dirac'), end_time='never'):
+    """A demography in which the SAME sizes and migration rates are in force in two finite epochs of DIFFERENT
+    duration (bottleneck and recovery: A B A C, or a redundant change point that splits an epoch unevenly: A A B):
+    anything remembered per Epoch (whose equality ignores the boundaries) must not be reused for another duration."""
+    spec = rand_spec(rng, n_total=n_total, n_demes=n_demes, n_epochs=1, kinds=kinds, end_time=end_time)
+    d0 = rng.choice([0.25, 0.5, 0.75])
+    d2 = rng.choice([x for x in (0.25, 0.5, 1.0, 1.5) if x != d0])
+    if rng.random() < 0.6:
+        d1 = rng.choice([0.25, 0.5, 1.0])
+        times, pattern = [d0, d0 + d1, d0 + d1 + d2], 'ABAC'
+    else:
+        times, pattern = [d0, d0 + d2], 'AAB'
+
+    def other(v, pool):
+        return rng.choice([x for x in pool if x != v])
+    for tab, pool in ((spec['pop_sizes'], [0.25, 0.5, 2.0, 4.0, 1.0]), (spec.get('migration_rates') or {}, [0.125, 0.5, 1.0, 2.0, 0.25])):
+        for k, d in tab.items():
+            a = d['0.0']
+            if pattern == 'ABAC':
+                d[repr(times[0])] = other(a, pool)
+                d[repr(times[1])] = a
+                d[repr(times[2])] = other(a, pool)
+            else:
+                d[repr(times[0])] = a
+                d[repr(times[1])] = other(a, pool)
+    spec['recurring'] = pattern
+    return spec
+
+
 def spec_key(spec):
     import json
     return json.dumps(spec, sort_keys=True)
